@@ -101,3 +101,14 @@ Print Assumptions C01_L0_formatted_text_lexes_back.
 Theorem C01_L0_example_meets_the_hypotheses : Fmt0Lex.wfb1 Fmt0Lex.v51 Fmt0Lex.cfg_example Fmt0Lex.prog_example.
 Proof. exact Fmt0Lex.example_is_well_formed. Qed.
 Print Assumptions C01_L0_example_meets_the_hypotheses.
+(* Tie 1 for the guard that keeps `- -` from being printed as the start of a comment: the function regenerated from /repo's
+   parenthesise_double_minus decides by the model's [starts_neg] and builds the model's [guard] *)
+From SV Require MinusGuardProof ParensTie.
+From SVgen Require MinusGuard.
+Theorem C01_regenerated_double_minus_guard_is_the_models : forall e, MinusGuard.starts_with_minus (ParensTie.embed e) = Parens.starts_neg e.
+Proof. exact MinusGuardProof.generated_starts_with_minus_is_model. Qed.
+Print Assumptions C01_regenerated_double_minus_guard_is_the_models.
+Theorem C01_regenerated_guard_parenthesises_exactly_then : forall oracle : FmAst.Expression -> FmAst.Expression * unit, (forall e, fst (oracle e) = e) ->
+  forall u x, MinusGuard.parenthesise_double_minus oracle (ParensTie.embed_uop u) (ParensTie.embed x) = ParensTie.embed (Parens.guard u x).
+Proof. exact MinusGuardProof.generated_guard_is_model. Qed.
+Print Assumptions C01_regenerated_guard_parenthesises_exactly_then.
